@@ -60,8 +60,9 @@ func genC11World(r *rand.Rand, scenario string) *World {
 		e.Strategy.Canary = &CanaryDef{Replicas: "1", Duration: "2m", NoRestartsDuration: "1m"}
 	case "setting-change":
 		w.Settings = []*SettingDef{{NS: "ns1", Name: "set0", Ref: "foo", Selector: map[string]string{"zone": "a"}, Container: "main", Cpu: "500m", AgeSec: 10},
-			// an older setting that selects the same nodes: it loses the conflict, whatever happened before
-			{NS: "ns1", Name: "set1", Ref: "foo", Selector: map[string]string{"zone": "a"}, Container: "main", Cpu: "700m", AgeSec: 40}}
+			// a second setting that selects the same nodes, created by the user during the scenario: being
+			// the newer one it wins the conflict, whatever happened before
+			{NS: "ns1", Name: "set1", Ref: "foo", Selector: map[string]string{"zone": "a"}, Container: "main", Cpu: "700m", AgeSec: -1}}
 		w.Extra["c10"] = "1"
 	case "migration":
 		// first deployment that adopts the pods of an old DaemonSet; unrelated pods with the same
@@ -233,6 +234,10 @@ func bodyC11(s *Sim) {
 			d.Cpu = "600m"
 			st.Spec = d.Object().Spec
 			s.Store.ForceUpdate(st)
+		}
+		if _, has := s.Store.Raw(objKey{KSetting, s.W.Settings[1].NS, s.W.Settings[1].Name}); len(s.W.Settings) > 1 && !has {
+			_, _ = s.Store.CreateObj(s.W.Settings[1].Object())
+			s.logf("user creates setting %s", s.W.Settings[1].Name)
 		}
 	}
 	s.until(r, max, func() bool { return conv() && s.faultsDone() })
@@ -432,7 +437,7 @@ func init() {
 	register(&Profile{Name: "C11", Decide: []string{"C11"}, Level: "fault_enumeration", Quick: units * c11Slices, Thorough: units * 6 * c11Slices, Body: bodyC11, Multi: multiC11,
 		Gen:        func(r *rand.Rand, tier string, idx int) *World { return genC11World(r, c11Scenarios[0]) },
 		NonVacuous: []string{"C11.faulted-run"}, Chunk: 1, Exhaustive: true,
-		Rule: "Corpus of 9 scripted, barrier-synchronised scenarios (first deployment, rolling update, canary promoted by time, canary paused, unpaused and validated, canary failed and rolled back, the same with the recovery after a fault delayed past the canary duration, node removal and addition, setting change, migration from an old DaemonSet with foreign look-alike pods), each over 1 (quick) or 6 (thorough) seeds that vary cluster size, configuration, node-assignment mode and schedule. For each (scenario, seed) the failure-free run is recorded; then for EVERY index k of the API calls issued by controller tasks during the scenario and every applicable fault kind (reads: rejected; writes: rejected, applied-but-reply-lost, crash before, crash after with fresh reconcilers) the same seed is re-run with that single fault, continued to quiescence, checked against all safety monitors at every step and compared with the failure-free final state. Thorough adds 40 PRNG-sampled fault pairs per slice. The space (calls x kinds) of each listed scenario/seed is enumerated completely; one evaluation = one slice of a unit."})
+		Rule: "Corpus of 11 scripted, barrier-synchronised scenarios (first deployment, rolling update, canary promoted by time, canary paused, unpaused and validated, canary failed and rolled back, the same with the recovery after a fault delayed past the canary duration, canary strategy removed, canary held, node removal and addition, setting change with a second overlapping setting created meanwhile, migration from an old DaemonSet with foreign look-alike pods), each over 1 (quick) or 6 (thorough) seeds that vary cluster size, configuration, node-assignment mode and schedule. For each (scenario, seed) the failure-free run is recorded; then for EVERY index k of the API calls issued by controller tasks during the scenario and every applicable fault kind (reads: rejected; writes: rejected, applied-but-reply-lost, crash before, crash after with fresh reconcilers) the same seed is re-run with that single fault, continued to quiescence, checked against all safety monitors at every step and compared with the failure-free final state. Thorough adds 40 PRNG-sampled fault pairs per slice. The space (calls x kinds) of each listed scenario/seed is enumerated completely; one evaluation = one slice of a unit."})
 }
 
 var _ = json.Marshal
